@@ -138,7 +138,7 @@ class Ctx:
         else:
             if len(self.violations) < 25:
                 self.violations.append({"what": what, "key": key, "replay": replay, "size": size})
-        self.count("violations", key[:60])
+        self.count("violations", key.split(":")[0][:40])
 
     def broke(self, kind: str, name: str, detail: str) -> None:
         """a proof obligation or a correspondence stream no longer checks (not yet a violation)"""
